@@ -2,3 +2,12 @@ NA = {}
 reg("C15", "exploration", "runtime monitor: structural invariant on every Scan result (offsets, exact text, byte coverage) over exhaustive short strings + lexeme streams + hostile bytes + corpus mutants",
     "Every input of the run is scanned by the real scanner in both comment modes and an independent checker re-derives each token's extent from the source bytes; short strings over a hostile alphabet are enumerated exhaustively. Assurance = held on the executions observed (10^5 quick / 4*10^6 thorough), not a proof.",
     "Trusts the harness's CR-tolerant literal matcher and Go's utf8 decoder; says nothing about inputs not generated.")
+reg("C16", "exploration", "runtime monitor: differential execution against go/scanner (reference implementation) with a reference-side domain filter; exhaustive short numeric/escape spellings + random Go lexeme streams",
+    "Both scanners run on every generated Go-lexeme input; token kinds, offsets, literals, inserted semicolons and error offsets are compared. All strings up to length 4 (quick) / 6 (thorough) over the number alphabet and all escape bodies up to length 4/5 are enumerated. Held-on-observed-executions assurance.",
+    "go/scanner of the installed toolchain is the oracle; auto-semicolon offsets and their order relative to comments are normalised because go/scanner changed that in Go 1.20 (XGo follows go 1.18).")
+reg("C32", "exploration", "runtime monitor: differential execution TPL scanner vs XGo scanner on shared lexemes (reference-side domain filter), exhaustive short strings + lexeme streams + corpus mutants",
+    "Every in-domain input is scanned by both scanners in both comment modes and the (kind, offset, literal, auto-semicolon) sequences must be identical. Held on the executions observed.",
+    "The XGo scanner is the reference (itself monitored by C15/C16); error diagnostics are not compared (not part of the property).")
+reg("C33", "exploration", "runtime monitor over an exhaustively enumerated finite space: every token value of both token tables scanned in 4 contexts, String/Len/Precedence/IsOperator asserted",
+    "The token space is finite and enumerated completely (exhaustive=true): every operator/keyword spelling is scanned by the real scanners and must come back as exactly that token.",
+    "The harness's spelling tables restate the documented spellings; tokens added later are picked up through String().")
